@@ -6,14 +6,6 @@ OBLIGATIONS = [
                 cases_thorough=[(0, 3, 2, 1), (0, 3, 1, 1), (0, 4, 2, 1), (0, 3, 2, 2)])),
     dict(C06.ob('C10.interp.fault', 'h_c06_fault', [(0, 3, 2, 1), (0, 3, 1, 1)], INTERP, 'as C10.interp.slab', cases_thorough=[(0, 3, 2, 1), (0, 3, 1, 1), (0, 4, 2, 1), (0, 3, 2, 2)])),
 ] + [dict(o, id=o['id'].replace('C12.sections', 'C10.sections')) for o in __import__('C12').OBLIGATIONS if o['id'].startswith('C12.sections')]
-# model inheritance of segments: the real Parameters::get_vector<Segment<...>> + get_shared_pointers on a programmatically built rapidjson DOM, parsed twice
-from C01 import TUS as _T1
-_IQ = [(f, fm, s0, 0, 1) for f in (0, 1) for fm in (0, 15, 5) for s0 in range(16)] + [(f, 15, s0, s1, 2) for f in (0, 1) for (s0, s1) in ((0, 15), (2, 12), (6, 9), (15, 0), (13, 2))]
-_IT = [(f, fm, s0, 0, 1) for f in (0, 1) for fm in range(16) for s0 in range(16)] + [(f, fm, s0, s1, 2) for f in (0, 1) for fm in (15, 10, 0) for s0 in (0, 2, 6, 13, 15) for s1 in (0, 1, 9, 12, 15)]
-OBLIGATIONS = OBLIGATIONS + [dict(id='C10.inherit', harness='c10_inherit.cc', entry='h_c10_inherit', mode='fp', cases=_IQ, cases_thorough=_IT, time_cap=600,
-    expect=['segment geometry is read as listed (a single value stands for both ends)', 'composition models: the segment\'s own list if it has one, else the default list handed in', 'grains models: parsing the segments again gives the same answer', 'end'],
-    bounds='slab and fault; 1 segment with every subset of the four model kinds listed on it x feature-level lists {none, all, temperature+grains} (thorough: every subset), and 2 segments in 5 (75) combinations; segment geometry numbers symbolic; each parse run twice on the same document',
-    tus=['c10_inherit.cc', 'parameters', 'objects/segment', 'types/segment'] + _T1[1:] + ['features/%s_models/%s/interface' % (f, k) for f in ('subducting_plate', 'fault') for k in ('temperature', 'composition', 'grains', 'velocity')], native=False, allow_throw=True, cflags=['-DRAPIDJSON_48BITPOINTER_OPTIMIZATION=0'], max_steps=6000000,
-    stubs=['the JSON document is built by the harness through the rapidjson API (no text parsing, no schema validation)', 'rapidjson compiled with RAPIDJSON_48BITPOINTER_OPTIMIZATION=0 for the symbolic run',
-           'the eight plugin factories Interface::create(name, world) return a stub model carrying the number encoded in its name'],
-    assumes=[], outside=['parsing of the file, schema validation', 'section-level defaults are represented by the default lists handed in (as SubductingPlate/Fault::parse_entries do)'])]
+# model inheritance of segments (definition shared with C05 and C12: obligations/C10i.py)
+import C10i
+OBLIGATIONS = OBLIGATIONS + [C10i.inherit('C10.inherit')]
